@@ -30,16 +30,22 @@ overlay=()
 
 build() { # build <out> <pkg> [extra flags]
   local out=$1 pkg=$2; shift; shift
-  (cd harness && go build -tags verif "${overlay[@]}" "$@" -o "../bin/$out" "$pkg") 2>bin/build-$id.log
+  (cd harness && go build -tags verif "${overlay[@]}" "$@" -o "../bin/$out" "$pkg") 2>bin/build-$id.$$.log
   local rc=$?
   if [ $rc -ne 0 ]; then
-    echo "ERROR build failed for $id ($pkg):"; tail -30 bin/build-$id.log; exit 2
+    echo "ERROR build failed for $id ($pkg):"; tail -30 bin/build-$id.$$.log; rm -f bin/build-$id.$$.log; exit 2
   fi
 }
-build "$lc" "./cmd/$lc" $race
+# every invocation builds and runs its own binary (concurrent runs, possibly
+# with different overlays, must not replace each other's binaries)
+mybin="$lc.$$"
+trap 'rm -f "bin/$mybin" "bin/file.d-verif.$$" "bin/build-$id.$$.log"' EXIT
+build "$mybin" "./cmd/$lc" $race
 if [ "$id" = C03 ]; then
-  (cd /repo && go build -tags verif "${overlay[@]}" -o "$VERIF_ROOT/bin/file.d-verif" ./cmd/file.d) 2>bin/build-$id-filed.log || {
+  (cd /repo && go build -tags verif "${overlay[@]}" -o "$VERIF_ROOT/bin/file.d-verif.$$" ./cmd/file.d) 2>bin/build-$id-filed.log || {
     echo "ERROR build of cmd/file.d failed:"; tail -30 bin/build-$id-filed.log; exit 2; }
+  export VERIF_FILED_BIN="$VERIF_ROOT/bin/file.d-verif.$$"
 fi
 
-exec "./bin/$lc" "$mode" "$@"
+"./bin/$mybin" "$mode" "$@"
+exit $?
